@@ -211,11 +211,11 @@ func (s *trieSim) apply(o op, c *kit.Ctx) (string, string) {
 }
 
 func (s *trieSim) checkRoot(c *kit.Ctx) (string, string) {
-	got, err := s.t.RootHash() // commits if modified
+	got, err := s.t.RootHash() // commits if modified — except on an EMPTY trie, where it returns early
 	if err != nil {
 		return "unexpected-error", "RootHash: " + err.Error()
 	}
-	if s.dirty {
+	if s.dirty && len(s.set) > 0 {
 		s.committed = cloneSet(s.set)
 		s.dirty = false
 	}
